@@ -49,11 +49,11 @@ func listenBoth() (net.Listener, net.PacketConn, error) {
 	return nil, nil, lastErr
 }
 
-func (n *streamNode) snapshot(c *vlib.Case) {
+func (n *streamNode) snapshot(c *vlib.Case, prop string) {
 	ls := n.g.LocalNode()
 	for _, e := range ls.Entries {
 		if old, ok := n.hist[e.Version]; ok && old != e {
-			c.Fatalf("C02: version %d of %s used for two different entries: %+v and %+v", e.Version, n.id, old, e)
+			c.Fatalf(prop+": version %d of %s used for two different entries: %+v and %+v", e.Version, n.id, old, e)
 		}
 		n.hist[e.Version] = e
 	}
@@ -67,12 +67,12 @@ func (n *streamNode) view(id string) (*gossip.NodeState, bool) {
 	return n.g.Node(id)
 }
 
-func checkStream(c *vlib.Case, nodes []*streamNode, during string) {
+func checkStream(c *vlib.Case, prop string, nodes []*streamNode, during string) {
 	for _, owner := range nodes {
 		cur := owner.last
 		if !owner.left {
 			if now := owner.g.LocalNode(); !reflect.DeepEqual(now, cur) {
-				c.Fatalf("C02: published state of %s changed without a local write (during %s):\nbefore %+v\nafter  %+v", owner.id, during, cur, now)
+				c.Fatalf(prop+": published state of %s changed without a local write (during %s):\nbefore %+v\nafter  %+v", owner.id, during, cur, now)
 			}
 		}
 		C := entriesMap(cur)
@@ -90,20 +90,20 @@ func checkStream(c *vlib.Case, nodes []*streamNode, during string) {
 			}
 			v := view.Version
 			if lv, had := obs.lastVer[owner.id]; had && v < lv {
-				c.Fatalf("C02: %s's version of %s moved backwards %d -> %d (during %s)", obs.id, owner.id, lv, v, during)
+				c.Fatalf(prop+": %s's version of %s moved backwards %d -> %d (during %s)", obs.id, owner.id, lv, v, during)
 			}
 			obs.lastVer[owner.id] = v
 			if v > cur.Version {
-				c.Fatalf("C02: %s reports %s at version %d, beyond the owner's %d", obs.id, owner.id, v, cur.Version)
+				c.Fatalf(prop+": %s reports %s at version %d, beyond the owner's %d", obs.id, owner.id, v, cur.Version)
 			}
 			V := entriesMap(view)
 			for _, e := range view.Entries {
 				h, ok := owner.hist[e.Version]
 				if !ok || h != e {
-					c.Fatalf("C02 authenticity: %s shows %+v for %s, which %s never wrote", obs.id, e, owner.id, owner.id)
+					c.Fatalf(prop+" authenticity: %s shows %+v for %s, which %s never wrote", obs.id, e, owner.id, owner.id)
 				}
 				if e.Version > v {
-					c.Fatalf("C02: %s holds entry %+v of %s above the version %d it reports", obs.id, e, owner.id, v)
+					c.Fatalf(prop+": %s holds entry %+v of %s above the version %d it reports", obs.id, e, owner.id, v)
 				}
 				cc, inC := C[e.Key]
 				if inC && cc == e {
@@ -111,16 +111,16 @@ func checkStream(c *vlib.Case, nodes []*streamNode, during string) {
 				}
 				if inC {
 					if cc.Version <= v {
-						c.Fatalf("C02 stale: after %s, %s reports %s up to version %d but shows %+v while the owner's current entry is %+v", during, obs.id, owner.id, v, e, cc)
+						c.Fatalf(prop+" stale: after %s, %s reports %s up to version %d but shows %+v while the owner's current entry is %+v", during, obs.id, owner.id, v, e, cc)
 					}
 				} else if v >= mcur {
-					c.Fatalf("C02 resurrect: after %s, %s reports %s up to version %d (compaction point %d) but still shows %+v which the owner deleted and compacted away", during, obs.id, owner.id, v, mcur, e)
+					c.Fatalf(prop+" resurrect: after %s, %s reports %s up to version %d (compaction point %d) but still shows %+v which the owner deleted and compacted away", during, obs.id, owner.id, v, mcur, e)
 				}
 			}
 			for _, cc := range cur.Entries {
 				if cc.Version <= v {
 					if got, ok := V[cc.Key]; !ok || got != cc {
-						c.Fatalf("C02 loss: after %s, %s reports %s up to version %d but lacks %+v (has %+v, present=%v)", during, obs.id, owner.id, v, cc, got, ok)
+						c.Fatalf(prop+" loss: after %s, %s reports %s up to version %d but lacks %+v (has %+v, present=%v)", during, obs.id, owner.id, v, cc, got, ok)
 					}
 				}
 			}
@@ -128,9 +128,23 @@ func checkStream(c *vlib.Case, nodes []*streamNode, during string) {
 	}
 }
 
+const streamRule = "2-4 real gossip.New instances on loopback TCP/UDP sockets with a one-hour gossip interval, so that the only exchanges are the generated ones: interleaved local upserts/deletes/compactions, Join calls between drawn pairs (the real client and server side of the join stream) and graceful Leave calls (the real leave stream to every known peer) followed by Close; oracle after every step: the C02 rules of the simulation (authentic entries, no entry above the reported version, no stale or lost key at or below it, no resurrected key at or beyond the compaction point, reported versions never move backwards, own state changed only by local writes) and, additionally, every peer that was told of a leave shows the leaver as left with exactly its final state; non-trivial = some node left after writes that no peer had seen, or a join happened after a compaction"
+
 func TestC02Stream(t *testing.T) {
-	vlib.SetRule("C02", "TestC02Stream", "2-4 real gossip.New instances on loopback TCP/UDP sockets with a one-hour gossip interval, so that the only exchanges are the generated ones: interleaved local upserts/deletes/compactions, Join calls between drawn pairs (the real client and server side of the join stream) and graceful Leave calls (the real leave stream to every known peer) followed by Close; oracle after every step: the C02 rules of the simulation (authentic entries, no entry above the reported version, no stale or lost key at or below it, no resurrected key at or beyond the compaction point, reported versions never move backwards, own state changed only by local writes) and, additionally, every peer that was told of a leave shows the leaver as left with exactly its final state; non-trivial = some node left after writes that no peer had seen, or a join happened after a compaction")
-	vlib.Run(t, "C02", func(c *vlib.Case) {
+	vlib.SetRule("C02", "TestC02Stream", streamRule)
+	runStream(t, "C02")
+}
+
+// TestC17Stream is the same generator and oracle claimed for C17's last clause:
+// observers that synchronise (here: over the join stream, after compactions) end
+// up with the owner's live state.
+func TestC17Stream(t *testing.T) {
+	vlib.SetRule("C17", "TestC17Stream", "observers synchronising over the real join/leave streams: "+streamRule)
+	runStream(t, "C17")
+}
+
+func runStream(t *testing.T, prop string) {
+	vlib.Run(t, prop, func(c *vlib.Case) {
 		N := c.Int("nodes", 2, 4)
 		var nodes []*streamNode
 		defer func() {
@@ -149,7 +163,7 @@ func TestC02Stream(t *testing.T) {
 			conf := &gossip.Config{BindAddr: addr, AdvertiseAddr: addr, Interval: time.Hour, MaxPacketSize: 1400}
 			n := &streamNode{id: fmt.Sprintf("n%d", i), addr: addr, tcp: tcp, udp: udp, hist: map[uint64]gossip.Entry{}, lastVer: map[string]uint64{}}
 			n.g = gossip.New(n.id, conf, tcp, udp, nopW{}, log.NewNopLogger())
-			n.snapshot(c)
+			n.snapshot(c, prop)
 			nodes = append(nodes, n)
 		}
 		liveNodes := func() []*streamNode {
@@ -196,7 +210,7 @@ func TestC02Stream(t *testing.T) {
 				}
 				peer := others[c.Pick("peer", len(others))]
 				if _, err := n.g.Join([]string{peer.addr}); err != nil {
-					c.Fatalf("C02: join of %s via the live node %s failed: %v", n.id, peer.id, err)
+					c.Fatalf(prop+": join of %s via the live node %s failed: %v", n.id, peer.id, err)
 				}
 				if compacted[n.id] || compacted[peer.id] {
 					c.NonTrivial()
@@ -220,9 +234,9 @@ func TestC02Stream(t *testing.T) {
 					}
 				}
 				if err := n.g.Leave(); err != nil && len(told) > 0 {
-					c.Fatalf("C02: leave of %s failed although it knows live peers: %v", n.id, err)
+					c.Fatalf(prop+": leave of %s failed although it knows live peers: %v", n.id, err)
 				}
-				n.snapshot(c)
+				n.snapshot(c, prop)
 				_ = n.g.Close()
 				n.left = true
 				what = fmt.Sprintf("%s leaves (tells %d peers, unseen writes: %v) and closes", n.id, len(told), unseen)
@@ -234,21 +248,21 @@ func TestC02Stream(t *testing.T) {
 				for _, o := range told {
 					v, ok := o.g.Node(n.id)
 					if !ok {
-						c.Fatalf("C02: %s was told that %s leaves but does not know it", o.id, n.id)
+						c.Fatalf(prop+": %s was told that %s leaves but does not know it", o.id, n.id)
 					}
 					if !v.Left {
-						c.Fatalf("C02: %s was told that %s leaves but does not show it as left", o.id, n.id)
+						c.Fatalf(prop+": %s was told that %s leaves but does not show it as left", o.id, n.id)
 					}
 					if v.Version != n.last.Version || !reflect.DeepEqual(entriesMap(v), entriesMap(n.last)) {
-						c.Fatalf("C02 loss: %s was sent the final state of the leaving node %s (version %d, %+v) but holds version %d, %+v", o.id, n.id, n.last.Version, n.last.Entries, v.Version, v.Entries)
+						c.Fatalf(prop+" loss: %s was sent the final state of the leaving node %s (version %d, %+v) but holds version %d, %+v", o.id, n.id, n.last.Version, n.last.Entries, v.Version, v.Entries)
 					}
 				}
 			}
 			if !n.left {
-				n.snapshot(c)
+				n.snapshot(c, prop)
 			}
 			c.Stepf("%s", what)
-			checkStream(c, nodes, what)
+			checkStream(c, prop, nodes, what)
 		}
 	})
 }
